@@ -36,11 +36,46 @@ theorem target_live (w : World) (op : Op) (c : Nat) (s : Store) (h : target w op
     | exact hI _ h
     | (split at h <;> first | cases h | exact hH _ h | exact hL _ h)
 
-theorem recover_same (op : Op) (s : Store) : Same s (recover op s) := by
-  unfold recover
-  split
-  · exact nestRO_same s _
-  · exact Same.refl s
+/-- whatever the statements executed before the failure did to the database (`mid` arbitrary), the function's failure handler
+    brings the content back: ROLLBACK restores the BEGIN snapshot, ROLLBACK_NESTTX / ROLLBACK_TO the savepoint's (which stays on the
+    stack: a snapshot of the unchanged content) -/
+theorem failPath_same (op : Op) (s : Store) (mid : Db) : Same s (failPath op s mid) := by
+  unfold failPath
+  cases txClass op with
+  | top =>
+    simp only []
+    cases hb : s.begin with
+    | none => exact Same.refl s
+    | some s1 => simp only []; rw [begin_rollback s s1 hb mid]; exact Same.refl s
+  | nest =>
+    simp only []
+    unfold Store.beginNest
+    by_cases ha : s.autocommit = true
+    · simp only [ha, if_true]
+      have : (({ ({ s with txn := some s.db } : Store) with db := mid } : Store).rollbackNest true) = s := by
+        cases s with | mk db txn saves =>
+        simp [Store.autocommit] at ha
+        simp [Store.rollbackNest, Store.rollback, Store.autocommit, Store.outermost, ha]
+      rw [this]; exact Same.refl _
+    · have ha' : s.autocommit = false := by simpa using ha
+      simp only [ha', Bool.false_eq_true, if_false, Store.rollbackNest]
+      refine ⟨by simp [Store.save, Store.rollbackTo], by simp [Store.save, Store.rollbackTo], 1, by simp [Store.save, Store.rollbackTo, List.replicate], ?_⟩
+      intro h; rw [ha'] at h; cases h
+  | save =>
+    simp only []
+    by_cases ha : s.autocommit = true
+    · simp only [ha, if_true]; exact Same.refl s
+    · have ha' : s.autocommit = false := by simpa using ha
+      simp only [ha', Bool.false_eq_true, if_false]
+      refine ⟨by simp [Store.save, Store.rollbackTo], by simp [Store.save, Store.rollbackTo], 1, by simp [Store.save, Store.rollbackTo, List.replicate], ?_⟩
+      intro h; rw [ha'] at h; cases h
+  | opening =>
+    simp only []
+    have h0 := nestRO_same s (fun _ => (Except.ok () : Except Code Unit))
+    cases hb : ((s.nestRO (fun _ => (Except.ok () : Except Code Unit))).1).begin with
+    | none => exact h0
+    | some s1 => simp only []; rw [begin_rollback _ s1 hb mid]; exact h0
+  | stmt => exact Same.refl s
 
 theorem wsim_setCif_right (w : World) (c : Nat) (s s' : Store) (hl : w.liveC c = some s) (h : Sim s s') : WSim w (w.setCif c s') := by
   refine ⟨rfl, rfl, rfl, by simp [setCif], ?_⟩
